@@ -230,6 +230,9 @@ impl TerminalState {
     }
 
     pub fn set_text_window(&mut self, x0: i32, y0: i32, x1: i32, y1: i32) {
+        // the two corners may arrive in either order (RIP |w takes them unchecked from the stream)
+        let (x0, x1) = (x0.min(x1), x0.max(x1));
+        let (y0, y1) = (y0.min(y1), y0.max(y1));
         self.text_window = Some(Rectangle::from_coords(x0, y0, x1, y1));
         self.set_margins_top_bottom(0, y1 - y0);
         self.set_margins_left_right(0, x1 - x0);
